@@ -449,7 +449,8 @@ def novel_vocabulary(cur, base):
     except Exception:
         return []
     kw = {'if', 'while', 'match', 'for', 'return', 'Some', 'Ok', 'Err', 'None', 'fn', 'loop', 'let', 'in', 'as'}
-    out = sorted(x for x in v1 - v0 if x not in kw)
+    # CamelCase names followed by `(` are enum-variant / tuple-struct constructors and patterns: exact by construction, no contract involved
+    out = sorted(x for x in v1 - v0 if x not in kw and not x[0].isupper())
     if c1 > c0:
         out.append('<%d new closure(s)>' % (c1 - c0))
     return out
